@@ -320,6 +320,9 @@ func (s *State) evalInternal(node any) object.Object { //nolint:funlen,gocognit,
 		if oerr != nil {
 			return *oerr
 		}
+		for i, e := range elements {
+			elements[i] = object.Value(e) // arrays hold values, not references to outer variables.
+		}
 		return object.NewArray(elements)
 	case *ast.MapLiteral:
 		return s.evalMapLiteral(node)
@@ -532,6 +535,7 @@ func (s *State) evalBuiltin(node *ast.Builtin) object.Object {
 		if isError {
 			val = object.String{Value: val.(object.Error).Value}
 		}
+		val = object.Value(val) // the result holds a value, not a reference to an outer variable.
 		return object.MakeQuad(ErrorKey, object.NativeBoolToBooleanObject(isError), object.ValueKey, val)
 	case token.ERROR, token.PRINT, token.PRINTLN, token.LOG:
 		return s.evalPrintLogError(node)
